@@ -1270,6 +1270,10 @@ pub trait Monitor {
     fn on_start(&mut self, w: &World, st: &mut Stats) -> Check {
         Ok(())
     }
+    /// called before a batch is applied to the world (nothing of it has been validated in this process yet)
+    fn before_batch(&mut self, w: &World, txs: &[Transaction], st: &mut Stats) -> Check {
+        Ok(())
+    }
     fn on_batch(&mut self, w: &World, ob: &BatchObs, st: &mut Stats) -> Check {
         Ok(())
     }
@@ -1416,11 +1420,38 @@ pub fn run_plan(plan: &Plan, profile: &Profile, mon: &mut dyn Monitor, st: &mut 
                     continue;
                 }
                 let take = (*n as usize).min(w.mempool.len());
-                let txs: Vec<Transaction> = w.mempool.drain(..take).collect();
-                let metas: Vec<TxMeta> = txs
-                    .iter()
-                    .map(|t| TxMeta { kind: format!("{:?}-from-mempool", t.kind).to_lowercase(), mutation: None, valid_by_construction: false, spends_batch_output: false, spelling: None, pool: None })
-                    .collect();
+                let mut txs: Vec<Transaction> = w.mempool.drain(..take).collect();
+                // a re-submitted transaction may arrive with other signature bytes than the copy that passed the
+                // admission check (same hash_nosigs): stripped, corrupted, or padded
+                let mut metas: Vec<TxMeta> = vec![];
+                for (i, t) in txs.iter_mut().enumerate() {
+                    let roll = (*n as usize).wrapping_add(i).wrapping_add((t.fee.0 % 1000) as usize) % 4;
+                    let mut mutation = None;
+                    if roll == 1 && t.sigs.iter().any(|s| !s.is_empty()) {
+                        for s in t.sigs.iter_mut() {
+                            if !s.is_empty() {
+                                let mut v = s.to_vec();
+                                v[5] ^= 0x20;
+                                *s = v.into();
+                            }
+                        }
+                        mutation = Some("resubmitted-with-corrupted-sigs");
+                    } else if roll == 2 && !t.sigs.is_empty() {
+                        t.sigs.clear();
+                        mutation = Some("resubmitted-without-sigs");
+                    } else if roll == 3 {
+                        t.sigs.push(vec![0u8; 64].into());
+                        mutation = Some("resubmitted-with-extra-sig");
+                    }
+                    metas.push(TxMeta {
+                        kind: format!("{:?}-from-mempool", t.kind).to_lowercase(),
+                        mutation,
+                        valid_by_construction: false,
+                        spends_batch_output: false,
+                        spelling: None,
+                        pool: None,
+                    });
+                }
                 st.class("mempool-batch-included");
                 if !apply_and_observe(&mut w, &mut snap, txs, metas, mon, st, &mut txs_in_block)? {
                     break;
@@ -1498,6 +1529,7 @@ fn apply_and_observe(
                     let ctx = RefCtx { header_at: &hdr, max_steps: 200_000 };
                     refstf::apply_batch(&pre, &txs, &ctx)
                 };
+                mon.before_batch(w, &txs, st)?;
                 let (outcome, rejected_view) = w.apply_batch_keep(&txs);
                 let post_view = w.view();
                 let post = decode_view(&post_view, &w.reg);
